@@ -263,6 +263,12 @@ func dumpStaged(c *Ctx, what string) {
 	for _, e := range st.Errs {
 		fmt.Println("staged error:", e)
 	}
+	if what == "tscanon" {
+		for name, f := range st.TS.Funcs {
+			fmt.Printf("%s: %s\n", name, tsCanon(f.Body))
+		}
+		return
+	}
 	if what == "ts" {
 		for _, e := range st.TS.Errs {
 			fmt.Println("ts error:", e)
